@@ -284,6 +284,8 @@ def units(tier, seed):
     classes = [c for c in common.select_classes(e1.binary_classes(), tier, 'C01')
                if c.__name__ not in regions.whole_class_regions()]
     out = [k9_unit(c) for c in classes]
+    from checks import hello
+    out.append(hello.unit(('K9',), 'K9 compose purity'))
     out.append(hello_compose_unit())
     for c in common.select_classes(e1.binary_classes(), tier, 'C13'):
         out.append(alias_unit(c))
